@@ -387,20 +387,40 @@ type VTicker struct {
 	pending  bool
 	deadline time.Time // virtual time at which the armed timeout expires
 	ch       chan consensus.VerifTimeoutInfo
+	started  bool // Start() was called: the real ticker's routine reads the schedule channel from then on
+	queued   int  // schedules made before Start (the real schedule channel buffers TickerBuffer of them)
 }
+
+// TickerBuffer is the capacity of the real ticker's schedule channel (consensus/ticker.go tickTockBufferSize): a
+// ScheduleTimeout call made before Start, with that many already queued, blocks forever in the real ticker.
+const TickerBuffer = 10
+
+// ErrTickerWouldBlock is the panic value of a schedule the real ticker would never return from.
+const ErrTickerWouldBlock = "ScheduleTimeout before the ticker was started with 10 timeouts already queued: the real ticker blocks forever here (its schedule channel is full and its routine is not running)"
 
 func NewVTicker() *VTicker {
 	t := &VTicker{ch: make(chan consensus.VerifTimeoutInfo, 1)}
 	t.last = *consensus.EmptyTimeoutInfo()
 	return t
 }
-func (t *VTicker) Start() error                            { return nil }
+func (t *VTicker) Start() error {
+	t.mu.Lock()
+	t.started = true
+	t.mu.Unlock()
+	return nil
+}
 func (t *VTicker) Stop() error                             { return nil }
 func (t *VTicker) Chan() <-chan consensus.VerifTimeoutInfo { return t.ch }
 func (t *VTicker) SetLogger(log.Logger)                    {}
 func (t *VTicker) ScheduleTimeout(ti consensus.VerifTimeoutInfo) {
 	t.mu.Lock()
 	defer t.mu.Unlock()
+	if !t.started {
+		t.queued++
+		if t.queued > TickerBuffer {
+			panic(ErrTickerWouldBlock)
+		}
+	}
 	p := t.last
 	if ti.Height < p.Height {
 		return
